@@ -124,9 +124,66 @@ def errname(e):
 _LITS = None
 
 
+def _fold(node):
+    """value of a constant integer expression (literals combined with << >> | & ^ + - * ** and unary -/~), else None"""
+    if isinstance(node, ast.Constant):
+        return node.value if isinstance(node.value, int) and not isinstance(node.value, bool) else None
+    if isinstance(node, ast.UnaryOp) and isinstance(node.op, (ast.USub, ast.Invert)):
+        v = _fold(node.operand)
+        return None if v is None else (-v if isinstance(node.op, ast.USub) else ~v)
+    if isinstance(node, ast.BinOp):
+        a, b = _fold(node.left), _fold(node.right)
+        if a is None or b is None:
+            return None
+        try:
+            op = node.op
+            if isinstance(op, ast.LShift):
+                return a << b if 0 <= b <= 130 else None
+            if isinstance(op, ast.RShift):
+                return a >> b if 0 <= b <= 130 else None
+            if isinstance(op, ast.BitOr):
+                return a | b
+            if isinstance(op, ast.BitAnd):
+                return a & b
+            if isinstance(op, ast.BitXor):
+                return a ^ b
+            if isinstance(op, ast.Add):
+                return a + b
+            if isinstance(op, ast.Sub):
+                return a - b
+            if isinstance(op, ast.Mult):
+                return a * b if abs(a) < (1 << 130) and abs(b) < (1 << 130) else None
+            if isinstance(op, ast.Pow):
+                return a ** b if 0 <= b <= 130 and abs(a) <= 16 else None
+        except Exception:
+            return None
+    return None
+
+
+def _ip_text_values(text):
+    """integers denoted by a string literal that is, as a whole, an IP address, a CIDR or an `a-b` range"""
+    import ipaddress
+    t = text.strip()
+    if not 2 <= len(t) <= 100 or not (t[0].isalnum() or t[0] == ':'):
+        return []
+    out = []
+    for part in (t.split('-') if t.count('-') == 1 else [t]):
+        try:
+            if '/' in part:
+                n = ipaddress.ip_network(part.strip(), strict=False)
+                out += [int(n.network_address), int(n.broadcast_address)]
+            else:
+                out.append(int(ipaddress.ip_address(part.strip())))
+        except ValueError:
+            return []
+    return out
+
+
 def harvest_literals():
-    """every integer literal in /repo's netaddr sources (via ast), with +-1: a mutation that
-    introduces a new boundary constant is probed at that constant on the next run."""
+    """every integer literal and every constant integer expression (`0x64ff9b << 64`) in /repo's netaddr
+    sources (via ast), plus the integers denoted by string literals that are IP addresses / CIDRs / ranges,
+    each with +-1: a change that introduces a new boundary constant or a new special block is probed at
+    that constant on the next run."""
     global _LITS
     if _LITS is not None:
         return _LITS
@@ -143,12 +200,37 @@ def harvest_literals():
             except Exception:
                 continue
             for node in ast.walk(tree):
-                if isinstance(node, ast.Constant) and isinstance(node.value, int) and not isinstance(node.value, bool):
-                    v = node.value
+                vals = []
+                if isinstance(node, (ast.Constant, ast.BinOp, ast.UnaryOp)):
+                    v = _fold(node)
+                    if v is not None:
+                        vals.append(v)
+                    elif isinstance(node, ast.Constant) and isinstance(node.value, str):
+                        vals += _ip_text_values(node.value)
+                for v in vals:
                     if 0 <= v < (1 << 129):
                         lits.update((v, v + 1, max(v - 1, 0)))
     _LITS = sorted(lits)
     return _LITS
+
+
+def literal_prefixed(rng, w, low, per=1):
+    """the big constants of the source (>= 2^16) used as the *high* bits of a w-bit value whose low `low`
+    bits are random: both `L << low | r` and `L with its low bits replaced by r`.  A change that tests
+    `value >> 32 == CONSTANT` (a seeded NAT64 branch did) is hit here although no boundary neighbour of
+    the constant itself is."""
+    m = (1 << w) - 1
+    out = []
+    for L in harvest_literals():
+        if L < (1 << 16):
+            continue
+        for _ in range(per):
+            r = rng.getrandbits(low)
+            if (L << low) <= m:
+                out.append((L << low) | r)
+            if L <= m and L >= (1 << low):
+                out.append(((L >> low) << low) | r)
+    return out
 
 
 def boundary_values(w):
@@ -243,12 +325,13 @@ def make_glob(text):
     (a seeded regression did exactly that) is observed by every check that uses glob objects."""
     import zlib
     from netaddr import IPGlob
-    if zlib.crc32(text.encode()) & 1:
-        return IPGlob(text)
+    h = zlib.crc32(text.encode())
+    if h & 1:
+        return maybe_clone(IPGlob(text), h)
     g = IPGlob('10.11.12.1-9')
     _ = (g.size, len(g), g.cidrs(), g.first, g.last, hash(g), str(g), list(g)[:2])
     g.glob = text
-    return g
+    return maybe_clone(g, h)
 
 
 def twice_cidrs(r):
@@ -270,7 +353,7 @@ def exercise(n):
         pass
 
 
-def make_net(ver, val, plen):
+def _make_net(ver, val, plen):
     """IPNetwork((val, plen), version=ver).  For half of the (ver, val, plen) triples (stable hash) the
     object is instead a *lived-in* one: built as another network, exercised (hash, ==, dict lookup, str,
     first/last/size, key(), sort_key()) and then moved to the target through the public mutators
@@ -319,7 +402,7 @@ def make_net(ver, val, plen):
     return n
 
 
-def make_addr(ver, val):
+def _make_addr(ver, val):
     """IPAddress(val, ver); for half of the values a lived-in object moved here with += / -= / .value"""
     import zlib
     from netaddr import IPAddress
@@ -353,7 +436,7 @@ def _exercise_addr(a):
         pass
 
 
-def make_eui(v, ver, dialect=None):
+def _make_eui(v, ver, dialect=None):
     """EUI(v, version=ver, dialect=dialect); for half of the (value, version) pairs a lived-in object:
     built with another value under another dialect, exercised (hash, ==, str, words, packed, bits, ei, a
     word read), then moved with the `value` and `dialect` setters"""
@@ -362,7 +445,9 @@ def make_eui(v, ver, dialect=None):
     from netaddr import EUI
     h = zlib.crc32(('%d:%d' % (ver, v)).encode())
     if (h & 1) == 0 or ver not in (48, 64) or not isinstance(v, int) or not 0 <= v < (1 << ver):
-        return EUI(v, version=ver, dialect=dialect)
+        e = EUI(v, version=ver, dialect=dialect)
+        _bystander_eui(ver, dialect, h)
+        return e
     others = ([netaddr.mac_cisco, netaddr.mac_bare, netaddr.mac_unix_expanded, netaddr.mac_pgsql] if ver == 48 else
               [netaddr.eui64_cisco, netaddr.eui64_bare, netaddr.eui64_unix_expanded, netaddr.eui64_base])
     e = EUI(v ^ (1 << ((h >> 1) % ver)), version=ver, dialect=others[(h >> 8) % 4])
@@ -376,7 +461,93 @@ def make_eui(v, ver, dialect=None):
     else:
         e.dialect = dialect
         e.value = v
+    _bystander_eui(ver, dialect, h)
     return e
+
+
+def _bystander_eui(ver, dialect, h):
+    """Between building an EUI and looking at it, other identifiers come and go in the same process: one of
+    the *other* width that is given the same dialect class (the constructor accepts any dialect for
+    either width), built, printed and dropped.  Dialect classes are shared by every object that names
+    them; an object must not change because of what happens to another one (a seeded change wrote
+    `num_words` into the dialect class from the constructor)."""
+    from netaddr import EUI
+    if dialect is None or (h >> 16) % 3 == 0:
+        return
+    try:
+        o = EUI(h & 0xffffff, version=112 - ver, dialect=dialect)
+        _ = (str(o), o.words, o.bits())
+    except Exception:
+        pass
+
+
+def maybe_clone(o, h):
+    """for a quarter of the objects (by the stable hash h) hand out a clone instead - copy.copy, copy.deepcopy or a
+    pickle round trip (every protocol): a clone is as good an object as the original (property C12 says
+    it is equal to it); state that __setstate__ / __reduce__ forget to rebuild shows up in whatever the
+    check does next (a seeded change left a cached-bounds slot of IPRange unset in clones)."""
+    import copy
+    import pickle
+    k = (h >> 20) % 32
+    try:
+        if k == 0:
+            return copy.copy(o)
+        if k == 1:
+            return copy.deepcopy(o)
+        if k < 8:
+            return pickle.loads(pickle.dumps(o, min(k - 2, pickle.HIGHEST_PROTOCOL)))
+    except Exception:
+        return o
+    return o
+
+
+def disturb(*objs):
+    """What a caller may do with *its own* IP objects after handing them to a constructor or function:
+    move them (the cursor idiom `r = IPRange(cur, cur + n - 1); cur += n`).  netaddr copies its arguments;
+    a result that keeps the caller's object would move with it (two seeded changes did that in
+    IPRange.__init__).  Addresses get `+= 1` / `-= 1`, networks another prefix length; errors are ignored."""
+    from netaddr import IPAddress, IPNetwork
+    for o in objs:
+        try:
+            if isinstance(o, IPAddress):
+                if o._value > 0:
+                    o -= 1
+                else:
+                    o += 1
+            elif isinstance(o, IPNetwork):
+                o.prefixlen = o.prefixlen - 1 if o.prefixlen > 0 else 1
+                o.value = o.value ^ 1
+        except Exception:
+            pass
+
+
+def make_range(ver, lo, hi):
+    """IPRange(IPAddress(lo, ver), IPAddress(hi, ver)) from (for half of the values: lived-in) address objects
+    which the caller then moves away (see `disturb`)"""
+    import zlib
+    from netaddr import IPRange
+    a, b = make_addr(ver, lo), make_addr(ver, hi)
+    r = IPRange(a, b)
+    disturb(a, b)
+    return maybe_clone(r, zlib.crc32(('r%d:%d-%d' % (ver, lo, hi)).encode()))
+
+
+def _crc(*xs):
+    import zlib
+    return zlib.crc32(repr(xs).encode())
+
+
+def make_net(ver, val, plen):
+    """a network object with (version, value, prefixlen) as given: fresh, lived-in (see _make_net) or a clone"""
+    return maybe_clone(_make_net(ver, val, plen), _crc('n', ver, val, plen))
+
+
+def make_addr(ver, val):
+    return maybe_clone(_make_addr(ver, val), _crc('a', ver, val))
+
+
+def make_eui(v, ver, dialect=None):
+    return maybe_clone(_make_eui(v, ver, dialect), _crc('e', ver, v))
 
 
 def stale(n):
